@@ -127,12 +127,42 @@ fn show_tpl(t: &T) -> Sexp {
 
 // ------------------------------------------------------------------ building REAL templates
 
-fn borrowed_parts<'a>(ps: &'a [P]) -> Vec<Part<'a>> {
+/// The strings of a case carved out of shared buffers: a string that is a prefix of another one of the case is a
+/// slice of that one's buffer, so the two START AT THE SAME ADDRESS and differ in length only (what slicing labels and
+/// literals out of one source text gives). Equality, lookup and rendering are by content, never by address.
+pub struct Pool(Vec<String>);
+
+impl Pool {
+    pub fn new<'s>(strings: impl IntoIterator<Item = &'s str>) -> Pool {
+        let mut all: Vec<&str> = strings.into_iter().collect();
+        all.sort();
+        all.dedup();
+        // keep the strings that are not a proper prefix of another one
+        let maximal: Vec<String> =
+            all.iter().filter(|s| !all.iter().any(|t| t.len() > s.len() && t.starts_with(**s))).map(|s| s.to_string()).collect();
+        Pool(maximal)
+    }
+    pub fn get<'a>(&'a self, s: &'a str) -> &'a str {
+        match self.0.iter().filter(|b| b.starts_with(s)).max_by_key(|b| b.len()) {
+            Some(b) => &b[..s.len()],
+            None => s,
+        }
+    }
+}
+
+fn strings_of(ps: &[P]) -> impl Iterator<Item = &str> {
+    ps.iter().map(|p| match p {
+        P::Text(t) => t.as_str(),
+        P::Hole(l, _) => l.as_str(),
+    })
+}
+
+fn borrowed_parts<'a>(ps: &'a [P], pool: &'a Pool) -> Vec<Part<'a>> {
     ps.iter()
         .map(|p| match p {
-            P::Text(t) => Part::text_ref(t),
-            P::Hole(l, None) => Part::hole_ref(l),
-            P::Hole(l, Some(i)) => Part::hole_ref(l).with_formatter(Formatter::new(FORMATTERS[*i])),
+            P::Text(t) => Part::text_ref(pool.get(t)),
+            P::Hole(l, None) => Part::hole_ref(pool.get(l)),
+            P::Hole(l, Some(i)) => Part::hole_ref(pool.get(l)).with_formatter(Formatter::new(FORMATTERS[*i])),
         })
         .collect()
 }
@@ -149,7 +179,11 @@ fn owned_parts(ps: &[P]) -> Vec<Part<'static>> {
 
 /// Build every template of the case through the constructor its KIND names and hand the real values to `f`.
 fn with_templates<R>(ts: &[T], f: impl FnOnce(&[Template]) -> R) -> R {
-    let borrowed: Vec<Vec<Part>> = ts.iter().map(|t| borrowed_parts(&t.parts)).collect();
+    with_templates_in(ts, &Pool::new(ts.iter().flat_map(|t| strings_of(&t.parts))), f)
+}
+
+fn with_templates_in<R>(ts: &[T], pool: &Pool, f: impl FnOnce(&[Template]) -> R) -> R {
+    let borrowed: Vec<Vec<Part>> = ts.iter().map(|t| borrowed_parts(&t.parts, pool)).collect();
     let owned: Vec<Option<Template<'static>>> = ts
         .iter()
         .zip(&borrowed)
@@ -167,7 +201,7 @@ fn with_templates<R>(ts: &[T], f: impl FnOnce(&[Template]) -> R) -> R {
             Kind::Owned | Kind::ToOwned => owned[i].clone().unwrap(),
             Kind::ByRef => owned[i].as_ref().unwrap().by_ref(),
             Kind::Lit => match &t.parts[..] {
-                [P::Text(s)] => Template::literal_ref(s),
+                [P::Text(s)] => Template::literal_ref(pool.get(s)),
                 _ => unreachable!(),
             },
         })
@@ -291,6 +325,8 @@ enum PropsKind {
     And(usize),
     Erased,
     With,
+    /// a `BTreeMap<Str, Value>` (first value per key kept, like every other collection): lookups go through `Str: Ord`
+    BTree,
 }
 
 fn parse_props(s: &Sexp) -> Option<Vec<(String, V)>> {
@@ -510,6 +546,7 @@ fn run_render(line: &str) -> String {
             Sexp::Atom(a) if a == "slice" => PropsKind::Slice,
             Sexp::Atom(a) if a == "erased" => PropsKind::Erased,
             Sexp::Atom(a) if a == "with" => PropsKind::With,
+            Sexp::Atom(a) if a == "btree" => PropsKind::BTree,
             l => {
                 let (tag, a) = l.as_tagged()?;
                 if tag != "and" || a.len() != 1 {
@@ -523,11 +560,14 @@ fn run_render(line: &str) -> String {
             }
         };
         let fail_at = if args[3].as_atom()? == "-" { None } else { Some(args[3].as_usize()?) };
+        // template strings and property keys share one pool: a label that is a prefix of a key (or the other way
+        // round) starts at the same address as it
+        let pool = Pool::new(strings_of(&t.parts).chain(ps.iter().map(|(k, _)| k.as_str())));
         let vals: Vec<(&str, Value)> = ps
             .iter()
             .map(|(k, v)| {
                 (
-                    k.as_str(),
+                    pool.get(k.as_str()),
                     match v {
                         V::Str(s) => Value::from(s.as_str()),
                         V::Int(i) => Value::from(*i),
@@ -536,10 +576,17 @@ fn run_render(line: &str) -> String {
                 )
             })
             .collect();
-        Some(with_templates(std::slice::from_ref(&t), |tpls| {
+        Some(with_templates_in(std::slice::from_ref(&t), &pool, |tpls| {
             let tpl = &tpls[0];
             let np = tpl.parts().count();
             let out = match pk {
+                PropsKind::BTree => {
+                    let mut map: std::collections::BTreeMap<emit::Str, Value> = std::collections::BTreeMap::new();
+                    for (k, v) in &vals {
+                        map.entry(emit::Str::new_ref(k)).or_insert_with(|| v.by_ref());
+                    }
+                    observe(tpl.render(&map), np, fail_at)
+                }
                 PropsKind::Slice => observe(tpl.render(&vals[..]), np, fail_at),
                 PropsKind::And(k) => observe(tpl.render((&vals[..k]).and_props(&vals[k..])), np, fail_at),
                 PropsKind::Erased => {
@@ -874,7 +921,7 @@ fn run_scan(line: &str) -> String {
 
 /// 1-, 2-, 3- and 4-byte characters; several share their leading UTF-8 bytes (é/è, €/‚, 🎈/📌), braces included.
 const CHARS: [char; 16] = ['a', 'b', 'a', ' ', '{', '}', 'é', 'è', 'ß', '€', '‚', '한', '🎈', '📌', 'x', '0'];
-const LABELS: [&str; 8] = ["x", "y", "", "é", "xy", "x", "a b", "{"];
+const LABELS: [&str; 11] = ["x", "y", "", "é", "xy", "x", "a b", "{", "xyz", "id", "n"];
 
 #[derive(Clone, Debug, PartialEq)]
 enum Atom {
@@ -1083,6 +1130,7 @@ fn render_case(t: &T, props: &[(String, V)], pk: &PropsKind, fail_at: Option<usi
         PropsKind::Slice => Sexp::atom("slice"),
         PropsKind::Erased => Sexp::atom("erased"),
         PropsKind::With => Sexp::atom("with"),
+        PropsKind::BTree => Sexp::atom("btree"),
         PropsKind::And(k) => Sexp::tagged("and", vec![Sexp::num(k)]),
     };
     let fa = fail_at.map(Sexp::num).unwrap_or_else(|| Sexp::atom("-"));
@@ -1138,10 +1186,11 @@ fn gen_render(rng: &mut Rng, tier: Tier, n: usize) -> Vec<String> {
                 (k, gen_val(rng))
             })
             .collect();
-        let pk = match rng.below(5) {
+        let pk = match rng.below(6) {
             0 | 1 => PropsKind::Slice,
             2 => PropsKind::And(rng.usize(props.len() + 1)),
             3 => PropsKind::Erased,
+            4 => PropsKind::BTree,
             _ => PropsKind::With,
         };
         let fail_at = if rng.chance(1, 4) { Some(rng.usize(parts.len() + 2)) } else { None };
